@@ -37,6 +37,51 @@ func resolveIniName(opts []*flags.Option, name string) *flags.Option {
 	return best
 }
 
+// resolveGlobalIniName: entries before any section header address all of the parser's own groups,
+// one after the other (each with the groups nested in it); the first group in which the name's
+// best-ranked option may be set from a file supplies the option.
+func resolveGlobalIniName(root *flags.Group, name string) *flags.Option {
+	var subtree func(g *flags.Group) []*flags.Option
+	subtree = func(g *flags.Group) []*flags.Option {
+		out := append([]*flags.Option{}, g.Options()...)
+		for _, s := range g.Groups() {
+			out = append(out, subtree(s)...)
+		}
+		return out
+	}
+	var found *flags.Option
+	var walk func(g *flags.Group)
+	walk = func(g *flags.Group) {
+		if found == nil {
+			found = resolveIniName(subtree(g), name)
+		}
+		for _, s := range g.Groups() {
+			walk(s)
+		}
+	}
+	walk(root)
+	return found
+}
+
+// collideNoIni (C13): a top-level option that files may not set (no-ini) has, as its field name,
+// the long name of an option in a nested group: the name then denotes the nested option, in a file
+// as on the command line.
+func (g *gen) collideNoIni(sd *StructDesc) bool {
+	top, nested := topAndNested(sd)
+	if len(top) == 0 || len(nested) == 0 {
+		return false
+	}
+	t, n := top[g.r.Intn(len(top))], nested[g.r.Intn(len(nested))]
+	if _, ok := tagValue(t.Tag, "no-ini"); !ok {
+		t.Tag += ` no-ini:"true"`
+	}
+	if _, ok := tagValue(n.Tag, "ini-name"); ok {
+		return false
+	}
+	n.Tag = tagReplace(n.Tag, "long", t.Name)
+	return true
+}
+
 func checkC13(c *Ctx, n int) {
 	p := defaultProfile
 	p.BadDecl = 0
@@ -62,6 +107,10 @@ func checkC13(c *Ctx, n int) {
 		collided := false
 		if g.chance(0.4) {
 			collided = g.collidePriority(cs.Build[0].Struct)
+		}
+		noIni := false
+		if !collided && g.chance(0.35) && cs.Build[0].Struct != nil {
+			noIni = g.collideNoIni(cs.Build[0].Struct)
 		}
 		prefixed := false
 		if i%2 == 1 && g.chance(0.4) && cs.Build[0].Struct != nil {
@@ -146,10 +195,23 @@ func checkC13(c *Ctx, n int) {
 		if collided && c.Rng.Intn(3) != 0 {
 			s = secs[0]
 		}
+		if noIni {
+			s = secs[0]
+		}
 		if len(s.opts) == 0 {
 			continue
 		}
 		target := s.opts[c.Rng.Intn(len(s.opts))]
+		forceName := ""
+		if noIni {
+			for _, o := range s.opts {
+				for _, o2 := range s.opts {
+					if o2 != o && reflectTag(o2, "no-ini") != "" && o2.Field().Name == o.LongNameWithNamespace() && reflectTag(o, "no-ini") == "" {
+						target, forceName = o, o.LongNameWithNamespace()
+					}
+				}
+			}
+		}
 		if collided {
 			// look for an option whose names clash with another option's
 			for _, o := range s.opts {
@@ -206,7 +268,15 @@ func checkC13(c *Ctx, n int) {
 				}
 			}
 		}
-		if resolveIniName(s.opts, name) != target || name != strings.TrimSpace(name) || strings.ContainsAny(name, "=[;#") {
+		if forceName != "" {
+			name = forceName
+			c.Class("c13/name-is-also-the-field-name-of-a-no-ini-option")
+		}
+		resolved := resolveIniName(s.opts, name)
+		if s.name == "" && len(s.path) == 0 {
+			resolved = resolveGlobalIniName(real.p.Command.Group, name)
+		}
+		if resolved != target || name != strings.TrimSpace(name) || strings.ContainsAny(name, "=[;#") {
 			c.Class("c13/name-resolves-elsewhere-skip")
 			continue
 		}
@@ -242,7 +312,7 @@ func checkC13(c *Ctx, n int) {
 		// spellings of the group's description that differ in case
 		splitAt, secondHeader := -1, ""
 		if len(vals) >= 2 && len(s.path) == 0 && s.name != "" && c.Rng.Intn(2) == 0 {
-			if resolveIniName(secs[0].opts, name) == target && c.Rng.Intn(2) == 0 {
+			if resolveGlobalIniName(real.p.Command.Group, name) == target && c.Rng.Intn(2) == 0 {
 				splitAt, secondHeader = 1+c.Rng.Intn(len(vals)-1), secName
 				secName = ""
 				c.Class("c13/entries-split-over-global-and-group-section")
@@ -367,6 +437,7 @@ type precOpt struct {
 	ini     []string
 	cli     []string
 	hasInit bool
+	optval  string // optional-value of an option whose argument is optional ("" = the argument is not optional)
 }
 
 func (po *precOpt) expected(order string) []string {
@@ -435,7 +506,7 @@ func checkC05(c *Ctx, n int) {
 			po := &precOpt{name: fmt.Sprintf("o%d", j), field: fmt.Sprintf("P%d", j), code: code}
 			val := func(src string, idx int) string {
 				if strings.HasSuffix(code, "int") {
-					return strconv.Itoa(1000*(j+1) + 100*map[string]int{"init": 1, "def": 2, "env": 3, "ini": 4, "cli": 5}[src] + idx)
+					return strconv.Itoa(1000*(j+1) + 100*map[string]int{"init": 1, "def": 2, "env": 3, "ini": 4, "cli": 5, "opt": 6}[src] + idx)
 				}
 				return fmt.Sprintf("%s%d_%d", src, j, idx)
 			}
@@ -500,7 +571,15 @@ func checkC05(c *Ctx, n int) {
 					po.ini = append(po.ini, val("ini", x))
 				}
 			}
-			if r.Intn(2) == 0 {
+			if r.Intn(5) == 0 {
+				// the argument is optional: one bare occurrence stands for the optional-value - an occurrence
+				// like any other, it outranks every other source
+				po.optval = val("opt", 0)
+				tags = append(tags, quoteTag("optional", "true"), quoteTag("optional-value", po.optval))
+				if r.Intn(3) != 0 {
+					po.cli = []string{po.optval}
+				}
+			} else if r.Intn(2) == 0 {
 				for x := 0; x < count(); x++ {
 					po.cli = append(po.cli, val("cli", x))
 				}
@@ -549,7 +628,11 @@ func checkC05(c *Ctx, n int) {
 				ini.WriteString(po.field + " = " + v + "\n")
 			}
 			for _, v := range po.cli {
-				argv = append(argv, "--"+po.name+"="+v)
+				if po.optval != "" {
+					argv = append(argv, "--"+po.name)
+				} else {
+					argv = append(argv, "--"+po.name+"="+v)
+				}
 			}
 		}
 		r.Shuffle(len(argv), func(a, b int) {
@@ -564,7 +647,11 @@ func checkC05(c *Ctx, n int) {
 			for _, a := range argv {
 				kv := strings.SplitN(a, "=", 2)
 				if kv[0] == "--"+po.name {
-					po.cli = append(po.cli, kv[1])
+					if len(kv) == 1 {
+						po.cli = append(po.cli, po.optval)
+					} else {
+						po.cli = append(po.cli, kv[1])
+					}
 				}
 			}
 		}
@@ -728,4 +815,87 @@ func mapItem(code string, i int) string {
 		v = kv[1][:1] + ":" + strconv.Itoa(i+1)
 	}
 	return k + "=" + v
+}
+
+// C15, invalid declarations: several names each used by more than one option (two or three
+// different long names, short names, or both, spread over the groups of one parser).  Whatever the
+// library reports for such a declaration, it reports the same thing every time the same
+// declaration is built and parsed.
+func checkC15Invalid(c *Ctx, n int, reps int) {
+	r := c.Rng
+	for i := 0; i < n; i++ {
+		longs := []string{"alpha", "beta", "gamma", "färg", "x-y"}
+		shorts := []string{"a", "b", "é", "5"}
+		r.Shuffle(len(longs), func(a, b int) { longs[a], longs[b] = longs[b], longs[a] })
+		r.Shuffle(len(shorts), func(a, b int) { shorts[a], shorts[b] = shorts[b], shorts[a] })
+		nl, ns := r.Intn(4), r.Intn(3)
+		if nl+ns < 2 {
+			nl = 2
+		}
+		var tags []string
+		for k := 0; k < nl; k++ {
+			for u := 2 + r.Intn(2); u > 0; u-- {
+				tags = append(tags, quoteTag("long", longs[k]))
+			}
+		}
+		for k := 0; k < ns; k++ {
+			for u := 2 + r.Intn(2); u > 0; u-- {
+				tags = append(tags, quoteTag("short", shorts[k]))
+			}
+		}
+		for k := r.Intn(3); k > 0; k-- {
+			tags = append(tags, quoteTag("long", fmt.Sprintf("filler%d", k)))
+		}
+		r.Shuffle(len(tags), func(a, b int) { tags[a], tags[b] = tags[b], tags[a] })
+		// distribute over the top level and up to two nested groups
+		root := &StructDesc{}
+		subs := []*StructDesc{root}
+		for k := r.Intn(3); k > 0; k-- {
+			subs = append(subs, &StructDesc{})
+		}
+		for k, tg := range tags {
+			sd := subs[r.Intn(len(subs))]
+			sd.Fields = append(sd.Fields, FieldDesc{Name: fmt.Sprintf("F%d", k), Exported: true, Kind: "v", Ty: []string{"str", "bool", "int"}[r.Intn(3)], Tag: tg})
+		}
+		for k, sd := range subs[1:] {
+			if len(sd.Fields) == 0 {
+				continue
+			}
+			parent := subs[r.Intn(k+1)]
+			parent.Fields = append(parent.Fields, FieldDesc{Name: fmt.Sprintf("G%d", k), Exported: true, Kind: "s", Sub: sd, Tag: quoteTag("group", fmt.Sprintf("Group %d", k))})
+		}
+		cs := &Case{Name: "app", NsDelim: ".", EnvNsDelim: "_"}
+		cs.Build = []BuildOp{{Kind: "addgroup", Target: 1, Short: "Application Options", Struct: root}}
+		cs.Ops = []Op{{Kind: "parse", Args: []string{}}, {Kind: "parse", Args: []string{"--alpha"}}}
+		cs.Description = fmt.Sprintf("%d long and %d short names used more than once: %s", nl, ns, describeOps(cs))
+		var first *CaseResult
+		c.RunCases([]*Case{cs}, func(cr *CaseResult) { first = cr; c.classifyCase(cr) })
+		if first == nil {
+			continue
+		}
+		c.Class(fmt.Sprintf("c15/invalid-declaration: duplicated long=%d short=%d groups=%d", nl, ns, len(subs)))
+		same := true
+		diff := ""
+		rep := 1
+		for ; rep < reps && same; rep++ {
+			var impl []string
+			safe(func() {
+				rr, outs := BuildReal(cs)
+				impl = append(impl, outs...)
+				impl = append(impl, rr.RunOps()...)
+			})
+			same = len(impl) == len(first.Impl)
+			for li := 0; same && li < len(impl); li++ {
+				if impl[li] != first.Impl[li] {
+					same = false
+					diff = fmt.Sprintf("run 1: %s | run %d: %s", decodeLine(first.Impl[li]), rep+1, decodeLine(impl[li]))
+				}
+			}
+		}
+		in := map[string]interface{}{"case": cs.Description, "repetitions": rep}
+		if !same {
+			in["case_file"] = c.saveCase(first)
+		}
+		c.Check("invalid-declaration-is-reported-identically", same, "C15:nondeterministic", in, diff, "byte-identical observations")
+	}
 }
